@@ -59,6 +59,31 @@ def KeyUse.seal (u : KeyUse) (c : CipherId) (k : Key) (pt : Bytes) : KeyUse × P
   let p := encrypt c k u.next pt
   ({ next := u.next + 1, made := u.made ++ [p] }, p)
 
+/-- `AccessPoint`: the vault's parameters, its sealed meta data and the key installed by the
+last successful `unlock` (none = locked). -/
+structure AccessPoint where
+  cipher : CipherId
+  alg : Nat
+  salt : Bytes
+  seed : Option Bytes
+  sealedMeta : Pack
+  installed : Option Key := none
+
+/-- `AccessPoint::unlock`: derive, install, read the meta data; a key that does not open the
+meta data does not stay installed.  `unlockOld` is the code before the repair. -/
+def AccessPoint.unlock (ap : AccessPoint) (password : Bytes) : AccessPoint × Bool :=
+  let k := derive ap.alg password ap.salt ap.seed
+  match decrypt ap.cipher k ap.sealedMeta with
+  | some _ => ({ ap with installed := some k }, true)
+  | none => ({ ap with installed := none }, false)
+
+def AccessPoint.unlockOld (ap : AccessPoint) (password : Bytes) : AccessPoint × Bool :=
+  let k := derive ap.alg password ap.salt ap.seed
+  ({ ap with installed := some k }, (decrypt ap.cipher k ap.sealedMeta).isSome)
+
+/-- writing a row needs an installed key (`VaultLocked` otherwise) -/
+def AccessPoint.canWrite (ap : AccessPoint) : Bool := ap.installed.isSome
+
 /-- `Vault::verify(key)`: derive the key and try to open the encrypted vault meta data; the
 answer is whether that worked (nothing is unlocked) -/
 def verify (c : CipherId) (alg : Nat) (salt : Bytes) (seed : Option Bytes) (sealedMeta : Pack) (password : Bytes) : Bool :=
